@@ -1,4 +1,5 @@
 from typing import TypeVar, Set
+import inspect
 import logging
 import weakref
 import trio
@@ -88,6 +89,10 @@ def service(flavour):
 
     def service_unit_decorator(raw_cls):
         __new__ = raw_cls.__new__
+        try:
+            signature = inspect.signature(raw_cls)
+        except (TypeError, ValueError):
+            signature = None
 
         def __new_service__(cls, *args, **kwargs):
             if __new__ is object.__new__:
@@ -98,6 +103,15 @@ def service(flavour):
             self.__service_unit__ = service_unit
             return self
 
+        if signature is not None:
+            # ``inspect.signature(cls)`` reports ``__new__``: keep the real constructor
+            # signature visible, e.g. for the argument check of ``cls.s(...)`` templates
+            __new_service__.__signature__ = signature.replace(
+                parameters=[
+                    inspect.Parameter("cls", inspect.Parameter.POSITIONAL_ONLY),
+                    *signature.parameters.values(),
+                ]
+            )
         raw_cls.__new__ = __new_service__
         if raw_cls.run.__doc__ is None:
             raw_cls.run.__doc__ = "Service entry point"
